@@ -1,6 +1,7 @@
 package lat
 
 import (
+	"math"
 	"regexp"
 	"strings"
 	"unicode/utf8"
@@ -78,8 +79,15 @@ func member(t Ty, v Val, asg func(t, u Ty) bool) bool {
 		return v.K == "binv"
 	case "int": // ranges are inclusive
 		return v.K == "i" && t.Lo <= v.I && v.I <= t.Hi
-	case "flt":
-		return v.K == "f" && t.FLo <= v.F && v.F <= t.FHi
+	case "flt": // ranges are inclusive; a bound left at its default is no bound: the infinity beyond MaxFloat64 is included
+		lo, hi := t.FLo, t.FHi
+		if lo <= -math.MaxFloat64 {
+			lo = math.Inf(-1)
+		}
+		if hi >= math.MaxFloat64 {
+			hi = math.Inf(1)
+		}
+		return v.K == "f" && lo <= v.F && v.F <= hi
 	case "bool":
 		return v.K == "b" && (t.B < 0 || v.B == (t.B == 1))
 	case "tspan":
